@@ -263,6 +263,14 @@ def main(argv=None):
         if a.only and a.only not in l.name:
             continue
         jobs.append((prop, "lemma", l.name, a.tier, src, None))
+    # contracts of ANOTHER property's module that carry clauses of this property too (one function, several properties): verified as part of this check as well
+    shared_regs = {}
+    for oprop, key in getattr(mod, "SHARED_JOBS", []):
+        if a.only and a.only not in key:
+            continue
+        if oprop not in shared_regs:
+            shared_regs[oprop] = load_contracts(oprop)[0].REG
+        jobs.append((oprop, "contract", key, a.tier, src, None))
     if not jobs:
         print(f"CHECKER-ERROR {prop}: zero verification jobs (vacuity guard)")
         return EXIT_CRASH
@@ -307,7 +315,7 @@ def main(argv=None):
     for name, ag in sorted(agg.items()):
         if ag["verdict"] == "refuted":
             rp = write_replay(prop, name, ag, cpath, src)
-            cobj = reg.contracts.get(ag["target"])
+            cobj = reg.contracts.get(ag["target"]) or next((r.contracts[ag["target"]] for r in shared_regs.values() if ag["target"] in r.contracts), None)
             if cobj is not None and not cobj.replayable:
                 res = {"confirmed": False, "why": "contract marked not natively replayable (needs a live engine / threads); the failed obligation and the solver's counter-model are in the replay file"}
             elif ag["model"] is not None and ag["kind"] in ("post", "raises"):
